@@ -63,7 +63,7 @@ Fix(e) ==
     [] e.op = "create" -> [op |-> "create", via |-> e.via, by |-> e.by, acc |-> SeqToSet(e.acc), login |-> e.login,
                            want |-> SeqToSet(e.want), shape |-> e.shape]
     [] e.op = "kick"   -> [op |-> "kick", acc |-> SeqToSet(e.acc), tacc |-> SeqToSet(e.tacc), ban |-> e.ban,
-                           third |-> e.third, pacc |-> SeqToSet(e.pacc)]
+                           third |-> e.third, pacc |-> SeqToSet(e.pacc), shared |-> e.shared]
     [] e.op = "rt"     -> [op |-> "rt", S |-> SeqToSet(e.S)]
     [] e.op = "upd"    -> [op |-> "upd", via |-> e.via, S |-> SeqToSet(e.S), old |-> SeqToSet(e.old)]
     [] OTHER -> [op |-> "unknown"]
@@ -130,8 +130,8 @@ CreateProblems(e, s, mrep, maccts) ==
      THEN <<P("DRIFT", "C06", "created account differs from the request", d)>> ELSE <<>>)
 
 KickProblems(e, s, mlive, mbanned) ==
-  LET prot == 23 \in s.tacc
-      d == [acc |-> s.acc, tacc |-> s.tacc, ban |-> s.ban, third |-> s.third, reply |-> e.reply, closed |-> e.closed,
+  LET prot == 23 \in (IF s.shared THEN s.acc ELSE s.tacc)
+      d == [acc |-> s.acc, tacc |-> IF s.shared THEN s.acc ELSE s.tacc, shared |-> s.shared, ban |-> s.ban, third |-> s.third, reply |-> e.reply, closed |-> e.closed,
             banned |-> e.banned, pclosed |-> e.pclosed]
   IN
   (IF prot /\ e.closed THEN <<P("VIOL", "C06", "protected-user-disconnected", d)>> ELSE <<>>)
